@@ -60,6 +60,9 @@ type Bus struct {
 	failed  map[string]bool
 	// InFlight counts calls that are being delivered right now.
 	InFlight atomic.Int64
+	// MaxBundleLatencyNs is the longest time a DKG bundle took from the sender's call to the end of its processing by the
+	// receiver (scheduled delay + whatever the machine added).
+	bundleLat map[string]int64
 	// Panics collects handler panics contained by safePacket.
 	Panics []string
 	// Intercept, when set, sees every gossip packet before delivery and may replace it (nil = drop silently).
@@ -209,6 +212,19 @@ func (c *client) record(to, kind string, pm proto.Message) *Msg {
 	return m
 }
 
+// MaxBundleLatency returns the longest bundle latency over all senders except `except` ("" = none).
+func (b *Bus) MaxBundleLatency(except string) time.Duration {
+	b.mu.Lock()
+	defer b.mu.Unlock()
+	var m int64
+	for a, l := range b.bundleLat {
+		if a != except && l > m {
+			m = l
+		}
+	}
+	return time.Duration(m)
+}
+
 // SetBlock installs (or removes) the Block policy while nodes are running.
 func (b *Bus) SetBlock(f func(m *Msg) bool) {
 	b.mu.Lock()
@@ -283,6 +299,18 @@ func (c *client) Packet(ctx context.Context, p dnet.Peer, packet *pdkg.GossipPac
 func (c *client) BroadcastDKG(ctx context.Context, p dnet.Peer, in *pdkg.DKGPacket, _ ...grpc.CallOption) (*pdkg.EmptyDKGResponse, error) {
 	c.b.InFlight.Add(1)
 	defer c.b.InFlight.Add(-1)
+	t0 := time.Now()
+	defer func() {
+		lat := int64(time.Since(t0))
+		c.b.mu.Lock()
+		if c.b.bundleLat == nil {
+			c.b.bundleLat = map[string]int64{}
+		}
+		if lat > c.b.bundleLat[c.from.Addr] {
+			c.b.bundleLat[c.from.Addr] = lat
+		}
+		c.b.mu.Unlock()
+	}()
 	m := c.record(p.Address(), bundleKind(in), in)
 	target, err := c.pre(m)
 	if err != nil {
